@@ -313,6 +313,8 @@ def impl_env_setup():
     src = os.path.join(REPO, "src")
     if sys.path[0] != src:
         sys.path.insert(0, src)
+    import logging
+    logging.disable(logging.CRITICAL)
     return d
 
 
